@@ -64,6 +64,10 @@ Base(me)      == IF Len(me) > 2 /\ SubSeq(me, 1, 2) = "i_" THEN SubSeq(me, 3, Le
 EmptyScript == [hooks |-> <<>>, sel |-> [s \in States |-> 1], rank |-> [s \in States |-> 0],
                 util |-> [s \in States |-> ROne], rng |-> <<>>]
 
+\* (written as the empty tuple for machines without orthogonal regions: TLC's disk queue cannot write an unevaluated
+\* function constructor over an empty domain when a VIEW keeps it from being normalised)
+NoOrthoRequests == IF Orthos = {} THEN <<>> ELSE [o \in Orthos |-> {}]
+
 Blank ==
     [ \* ---- persistent -------------------------------------------------
       act   |-> [c \in Compos |-> 0],          \* compoActive
@@ -79,7 +83,7 @@ Blank ==
       \* ---- transient registry ------------------------------------------
       req   |-> [c \in Compos |-> 0],          \* compoRequested
       rem   |-> {},                            \* compoRemains
-      oreq  |-> [o \in Orthos |-> {}],         \* orthoRequested
+      oreq  |-> NoOrthoRequests,         \* orthoRequested
       hst   |-> [r \in Regions |-> TSNone],    \* headStatuses
       sst   |-> [r \in Regions |-> TSNone],    \* subStatuses
       \* ---- per-call / control objects ----------------------------------
@@ -171,6 +175,12 @@ SubList(m)     == [c \in Compos |-> ActiveSubState(m, CompoHead(c))]
 ---------------------------------------------------------------------------
 (* Callbacks                                                               *)
 
+\* (built as explicit tuples: values that a VIEW hides are never normalised by TLC, and its disk queue cannot write
+\* an unevaluated function constructor)
+RECURSIVE StatusCodes(_, _)
+StatusCodes(f, r) == IF r > REGION_COUNT THEN <<>>
+                     ELSE <<IF "PLANS" \in Cfg.features THEN f[r].r + (IF f[r].ot THEN 3 ELSE 0) ELSE 0>> \o StatusCodes(f, r + 1)
+
 ObservesConfig(me) == Base(me) \in UpdateMethods \cup ReactMethods \cup GuardMethods \cup PlanMethods \cup {"query"}
 
 Observe(m, s, me) ==
@@ -187,8 +197,7 @@ Observe(m, s, me) ==
         IF b \in GuardMethods \cup LifeMethods THEN m.cur ELSE <<>>,
         \* the regions' head / sub-state statuses accumulated so far in this call (result + 3 * outerTransition)
         IF b \in UpdateMethods \cup ReactMethods \cup PlanMethods
-        THEN << [r \in Regions |-> IF "PLANS" \in Cfg.features THEN m.hst[r].r + (IF m.hst[r].ot THEN 3 ELSE 0) ELSE 0],
-                [r \in Regions |-> IF "PLANS" \in Cfg.features THEN m.sst[r].r + (IF m.sst[r].ot THEN 3 ELSE 0) ELSE 0] >>
+        THEN << StatusCodes(m.hst, 1), StatusCodes(m.sst, 1) >>
         ELSE <<>>  >>
 
 Event(m, s, me) == <<s, me>> \o Observe(m, s, me)
@@ -774,7 +783,7 @@ DeepChangeToRequested(m, s) ==
 ---------------------------------------------------------------------------
 (* Processing (root_0.inl)                                                 *)
 
-ClearRequests(m) == [m EXCEPT !.req = [c \in Compos |-> 0], !.oreq = [o \in Orthos |-> {}], !.rem = {}]
+ClearRequests(m) == [m EXCEPT !.req = [c \in Compos |-> 0], !.oreq = NoOrthoRequests, !.rem = {}]
 BackUp(m)        == [req |-> m.req, oreq |-> m.oreq]
 RegDiffers(m, b) == m.req # b.req \/ m.oreq # b.oreq
 
@@ -836,7 +845,7 @@ InitialEnter(m) ==
 FinalExit(m) ==
     LET m1 == DeepExit(NewControl(m), 1) IN
     UpdateActivity([m1 EXCEPT !.act = [c \in Compos |-> 0], !.res = [c \in Compos |-> 0],
-                              !.req = [c \in Compos |-> 0], !.oreq = [o \in Orthos |-> {}], !.rem = {},
+                              !.req = [c \in Compos |-> 0], !.oreq = NoOrthoRequests, !.rem = {},
                               !.q = <<>>, !.plans = [r \in Regions |-> <<>>], !.pex = {},
                               !.succ = {}, !.fail = {},
                               !.hst = [r \in Regions |-> TSNone], !.sst = [r \in Regions |-> TSNone],
@@ -847,7 +856,7 @@ Reset(m) ==
     LET m1 == DeepExit(NewControl(m), 1)
         m2 == [m1 EXCEPT !.tt = [s \in States |-> 0], !.prev = <<>>,
                          !.act = [c \in Compos |-> 0], !.res = [c \in Compos |-> 0],
-                         !.req = [c \in Compos |-> 0], !.oreq = [o \in Orthos |-> {}], !.rem = {}]
+                         !.req = [c \in Compos |-> 0], !.oreq = NoOrthoRequests, !.rem = {}]
         m3 == DeepRequestChange(m2, 1, [k |-> "restart", i |-> 0])
     IN UpdateActivity(ClearRequests(DeepEnter(m3, 1)))
 
